@@ -426,6 +426,56 @@ theorem f1_single_fixed_agrees :
     dqOf (f1single true) 1 = [3] ∧ dqOf (f1single true) 2 = [3] ∧ modelHolds (f1single true) = true := by
   decide +kernel
 
+/-! ## further findings of round 2 (each: counterexample on the model of the unchanged code, and the
+same run on the model of the repaired code) -/
+
+/-- corrupt 4 reveals the key of operating member 1 (invalid message), corrupt 5 reveals the key for 4:
+    whether 5's message is valid depended on whether 4's message had been processed before. -/
+def f11 (fix : Bool) : Cfg :=
+  { n := 5, t := 2, seed := 1, ord := 2, q := Gen.C01.order, fixed := true, fix11 := fix,
+    adv := [(4, 10, [.mods [⟨"rev", [1]⟩]]), (5, 10, [.mods [⟨"rev", [4]⟩]])] }
+
+/-- corrupt 5 sends a second phase 10 message revealing the key used with honest member 4 -/
+def fDup (fix : Bool) : Cfg :=
+  { n := 5, t := 2, seed := 1, ord := 0, q := Gen.C01.order, fixed := true, fixDedup11 := fix,
+    adv := [(5, 10, [.mods [⟨"h", []⟩], .mods [⟨"rev", [4]⟩]])] }
+
+/-- corrupt 2 publishes points valid for members 1 and 4 only and accuses ITSELF in phase 8 -/
+def fAbort (fix : Bool) : Cfg :=
+  { n := 5, t := 2, seed := 463280, ord := 585, q := Gen.C01.order, fixed := true, fixAbort := fix,
+    adv := [(2, 7, [.mods [⟨"pt", [1, 4]⟩]]), (2, 8, [.mods [⟨"acc", [2]⟩]])] }
+
+set_option maxRecDepth 100000 in
+/-- unchanged tree: the DQ set of an honest member depended on the cross-sender delivery order -/
+theorem phase11_order_dependence_unfixed :
+    dqOf (f11 false) 1 ≠ dqOf (f11 false) 2 ∧ modelHolds (f11 false) = false := by decide +kernel
+
+set_option maxRecDepth 100000 in
+theorem phase11_order_fixed_agrees : modelHolds (f11 true) = true := by decide +kernel
+
+set_option maxRecDepth 100000 in
+/-- unchanged tree: only member 4 disqualified the sender of the second message -/
+theorem phase11_second_message_unfixed :
+    5 ∈ dqOf (fDup false) 4 ∧ 5 ∉ dqOf (fDup false) 1 ∧ modelHolds (fDup false) = false := by
+  decide +kernel
+
+set_option maxRecDepth 100000 in
+theorem phase11_second_message_fixed_agrees : modelHolds (fDup true) = true := by decide +kernel
+
+def iaOf (cfg : Cfg) (i : Nat) : List Nat :=
+  match (run cfg).find? (·.id = i) with
+  | some st => st.ia
+  | none => []
+
+set_option maxRecDepth 100000 in
+/-- unchanged tree: honest members 1 and 4 abort and honest member 3 marks them inactive -/
+theorem abort_marks_honest_inactive_unfixed :
+    1 ∈ iaOf (fAbort false) 3 ∧ 4 ∈ iaOf (fAbort false) 3 ∧ modelHolds (fAbort false) = false := by
+  decide +kernel
+
+set_option maxRecDepth 100000 in
+theorem abort_fixed_agrees : modelHolds (fAbort true) = true := by decide +kernel
+
 /-- T1 tie: the states of the real state chain that are active for a positive number of blocks
     (i.e. receive messages) are exactly the model's sending phases. -/
 theorem sending_phases_match :
